@@ -174,6 +174,7 @@ func vBigLess(a, b *big.Int) bool { return a.Cmp(b) < 0 }
 func vDump(name string, v interface{}) {}
 func vSmallGroup(expBits int) {}
 func vBigStrip(n int)         {}
+func vOrderHint(on int)       {}
 func vIsSymbolic() bool       { return false }
 func vGlobalsFrozen()         {}
 
